@@ -148,9 +148,14 @@ func c15(r *Run) {
 	}
 	// detaching is monotone: once the descriptor was handed to the caller netpoll never closes it
 	for _, f := range w.Funcs {
-		for _, ins := range findIns(f, func(i ssa.Instruction) bool { return isStoreToField(i, "netFD", "detaching") }) {
-			k, okc := constInt(ins.(*ssa.Store).Val)
-			r.ob("C15.R4:detaching-monotone:"+siteKey(w, ins), "netFD.detaching is only ever set to true: the close callbacks may run later (deferred to the handler task) and must still see the descriptor as handed over", f, ins, okc && k == 1, "store of "+shortVal(ins.(*ssa.Store).Val), false)
+		for _, ins := range findIns(f, func(i ssa.Instruction) bool {
+			if isStoreToField(i, "netFD", "detaching") {
+				return true
+			}
+			a := asAtomic(i)
+			return a != nil && a.Op != "Load" && structFieldOfAddr(a.Addr) == "netFD.detaching"
+		}) {
+			r.ob("C15.R4:detaching-monotone:"+w.FnName(f), "netFD.detaching is only ever set to true: the close callbacks may run later (deferred to the handler task) and must still see the descriptor as handed over", f, ins, isDetachMark(ins), "detaching is set (never cleared)", false)
 		}
 	}
 
